@@ -7,10 +7,8 @@ import (
 )
 
 // stubs for rules built in later steps
-func ruleBitOrigin(r *rep.Report, p *load.Program, pkg string)                               {}
 func rulePanicSites(r *rep.Report, p *load.Program, rl *roles.Roles)                        {}
 func ruleArithStructure(r *rep.Report, p *load.Program) { ruleUnrolledChains(r, p) }
-func ruleSelector(r *rep.Report, p *load.Program)                                            {}
 func ruleSchedules(r *rep.Report, p *load.Program)                                           {}
 func ruleMagnitudes(r *rep.Report, p *load.Program, pkg string)                              {}
-func ruleExpandLengths(r *rep.Report, p *load.Program)                                       {}
+func ruleExpandLengths(r *rep.Report, p *load.Program)                                       {} // part of ruleBitOrigin(modm)
